@@ -21,10 +21,11 @@ pub enum OutKind {
 }
 
 pub type RefFn = fn(&[E], &[E], i32) -> RefOut;
-/// Per-key reference for keyed programs: the sequence of elements (without the key) that key `k`
-/// must produce from its own value subsequence.
-pub type KeyRefFn = fn(i32, &[i32]) -> Vec<Vec<i64>>;
 
+
+
+
+#[allow(dead_code)]
 pub struct Prog {
     pub name: &'static str,
     pub desc: &'static str,
